@@ -76,15 +76,28 @@ Definition addr_is_lan (x : ip) : bool :=
   let y := if is4in6 x then unmap x else x in
   if is_loopback y then true else is_private y || is_link_local y.
 
-(* DistinctNetSet.key with Subnet = 24: ip.Prefix(24), as a number.  The zero Addr gives the
-   zero Prefix (0); a 4-byte address its top 24 of 32 bits; a 16-byte address (IPv4-mapped
-   ones included) its top 24 of 128 bits. *)
+(* DistinctNetSet.key with Subnet = 24: ip.Unmap().Prefix(24), as a number.  The zero Addr
+   gives the zero Prefix (0); a 4-byte address and an IPv4-mapped 16-byte address the top 24
+   of the 32 bits of the IPv4 address; any other 16-byte address its top 24 of 128 bits. *)
 Definition net_key (x : ip) : N :=
+  match unmap x with
+  | IPnone => 0
+  | IP4 a => 16777216 + N.shiftr a 8
+  | IP6 a => 33554432 + N.shiftr a 104
+  end.
+
+(* the key before the repair "p2p/netutil: count IPv4-mapped IPv6 addresses in their IPv4
+   subnet": ip.Prefix(24) of the address as stored, so that every IPv4-mapped address had the
+   key ::/24.  Kept only for the documentation theorem C46_stored_form_keying_refuted. *)
+Definition net_key_stored (x : ip) : N :=
   match x with
   | IPnone => 0
   | IP4 a => 16777216 + N.shiftr a 8
   | IP6 a => 33554432 + N.shiftr a 104
   end.
+
+(* the table operations are written against the key function in force *)
+Class KeyFn := key_of : ip -> N.
 
 (* enode.newNodeWithID restricted to records carrying one address: validIP *)
 Definition enode_ip (raw : ip) : ip :=
@@ -163,23 +176,26 @@ Definition set_entries (L : lst) (e : list tnode) : lst :=
 Definition set_repl (L : lst) (r : list tnode) : lst :=
   mkL (mkB (entries (lb L)) r (bips (lb L))) (lt L).
 
+Section Keyed.
+Context {K : KeyFn}.
+
 (* Table.addIP *)
 Definition add_ip (L : lst) (a : ip) : lst * bool :=
   if negb (ip_valid a) || is_unspecified a then (L, false)
   else if addr_is_lan a then (L, true)
   else
-    let '(t1, ok) := ns_add table_ip_limit (net_key a) (lt L) in
+    let '(t1, ok) := ns_add table_ip_limit (key_of a) (lt L) in
     if negb ok then (L, false)
     else
-      let '(b1, ok2) := ns_add bucket_ip_limit (net_key a) (bips (lb L)) in
-      if negb ok2 then (mkL (lb L) (ns_remove (net_key a) t1), false)
+      let '(b1, ok2) := ns_add bucket_ip_limit (key_of a) (bips (lb L)) in
+      if negb ok2 then (mkL (lb L) (ns_remove (key_of a) t1), false)
       else (mkL (mkB (entries (lb L)) (repl (lb L)) b1) t1, true).
 
 (* Table.removeIP *)
 Definition remove_ip (L : lst) (a : ip) : lst :=
   if addr_is_lan a then L
-  else mkL (mkB (entries (lb L)) (repl (lb L)) (ns_remove (net_key a) (bips (lb L))))
-           (ns_remove (net_key a) (lt L)).
+  else mkL (mkB (entries (lb L)) (repl (lb L)) (ns_remove (key_of a) (bips (lb L))))
+           (ns_remove (key_of a) (lt L)).
 
 (* slices.IndexFunc + element access *)
 Fixpoint find_first {A} (p : A -> bool) (l : list A) : option A :=
@@ -423,6 +439,11 @@ Fixpoint run (t : table) (ops : list op) : option table :=
   | [] => Some t
   | o :: r => match step t o with Some t' => run t' r | None => None end
   end.
+
+End Keyed.
+
+(* the key function of the current code *)
+#[global] Instance table_key : KeyFn := net_key.
 
 (* ---------- findnodeByID ---------- *)
 
